@@ -1,0 +1,23 @@
+//go:build verif
+
+package pisces
+
+// Export shim for the C16 verification harness (build tag verif): lets the
+// harness put a decorator around the operations of a KV, so that it can
+// pause a caller between two store operations and check what an
+// interleaving of read-modify-write sequences does to a record.
+
+// VerifOps returns the operation table behind a KV.
+func VerifOps(kv *KV) *KVOps { return kv.ops }
+
+// VerifNewKVWithOps builds a KV (ordered or not, like the one the
+// operations came from) over the given operation table.
+func VerifNewKVWithOps(ops *KVOps, ordered bool) *KV {
+	if ordered {
+		return newOrderedKV(ops)
+	}
+	return newKV(ops)
+}
+
+// VerifOrdered tells if a KV files its keys unhashed.
+func VerifOrdered(kv *KV) bool { return kv.ordered }
